@@ -5,7 +5,7 @@
    timing (position, chord, grace, backup/forward, furthest position = end of the measure).
    All theorems quantify over ALL inputs (any number of voices, gaps, chords with unequal
    durations, grace notes, non-note elements, divisions segments). *)
-From PV Require Import Lib.Base Model.C03 Proofs.C03 Proofs.C03_Seq Proofs.C03_Q.
+From PV Require Import Lib.Base Model.C03 Model.C03_Imp Model.C03_Grp Model.C03_Rng Proofs.C03 Proofs.C03_Seq Proofs.C03_Q Proofs.C03_Imp Proofs.C03_Grp Proofs.C03_Rng.
 From Coq Require Import QArith.
 From Coq Require Import Permutation.
 #[local] Open Scope Z_scope.
@@ -104,6 +104,154 @@ Theorem model_stream_passes_check : forall segs ms me,
   check_measure_both (segs, ms, me, lin_measure segs ms me) = true.
 Proof. exact lin_measure_passes_check_lemma. Qed.
 Print Assumptions model_stream_passes_check.
+
+(* O2, timing.  The IMPORTER's measure reader (imp: the transcription of _handle_measure/_handle_note -- running
+   position, prev_note for <chord/>, grace notes without <duration>, <backup> clamped at the measure start and
+   raising measure_maxtime, barline children at position_barline by location, <print> at the measure start;
+   tied to load_musicxml on every run by check_import) reads the exporter's stream of ANY measure whose contents
+   lie inside [ms, me] exactly as the independent spec reader does: the same objects in the same order with the
+   same start times and durations, no failed assertion, and the loaded measure is [ms, me]. *)
+Theorem importer_reads_measure : forall segs ms me,
+  ms <= me -> segs_in ms me segs ->
+  exists s', imp (lin_measure segs ms me) (mkM ms None ms ms) =
+             Some (fst (interp (lin_measure segs ms me) (mkI ms ms ms)), s') /\
+             mstart s' = ms /\ mmax s' = me.
+Proof. exact importer_reads_measure_lemma. Qed.
+Print Assumptions importer_reads_measure.
+
+(* ... hence every note of the measure is loaded at its onset with its duration (with interp_linearize) *)
+Theorem importer_places_notes : forall segs ms me,
+  ms <= me -> segs_in ms me segs ->
+  exists pl s', imp (lin_measure segs ms me) (mkM ms None ms ms) = Some (pl, s') /\
+                Permutation pl (flat_map seg_placed segs) /\ mmax s' = me.
+Proof. exact importer_places_notes_lemma. Qed.
+Print Assumptions importer_places_notes.
+
+(* whole parts: for any sequence of contiguous measures the importer (imp_part: the next measure starts at
+   measure_maxtime, prev_note reset per measure) reads the written part measure by measure as the spec reader
+   does, and the loaded measures have exactly the extents of the score's measures *)
+Theorem importer_reads_part : forall M t s started,
+  contiguous t M -> mmax s = t ->
+  imp_part (part_stream M) s started =
+  Some (part_placed M, (if started then [(mstart s, mmax s)] else []) ++ part_extents M).
+Proof. exact importer_reads_part_lemma. Qed.
+Print Assumptions importer_reads_part.
+
+(* the boolean the correspondence evaluates on every written measure (imp_measure_b) is passed by the model's
+   stream whenever the measure's contents lie inside it (segs_in_b: the decidable form of segs_in) *)
+Theorem model_stream_passes_imp_check : forall segs ms me,
+  ms <= me -> segs_in_b ms me segs = true ->
+  imp_measure_b (segs, ms, me, lin_measure segs ms me) = true.
+Proof. exact lin_measure_passes_imp_lemma. Qed.
+Print Assumptions model_stream_passes_imp_check.
+
+(* ... and so is the whole per-measure checker the correspondence evaluates (deciding spec check, exporter model,
+   importer model, hypotheses): a written measure on which check_measure_all is false is NOT the model's stream *)
+Theorem model_stream_passes_all_checks : forall segs ms me,
+  ms <= me -> segs_in_b ms me segs = true ->
+  check_measure_all (segs, ms, me, lin_measure segs ms me) = true.
+Proof. exact lin_measure_passes_all_lemma. Qed.
+Print Assumptions model_stream_passes_all_checks.
+
+(* non-vacuity: a measure [8, 24] with an equal-duration chord, a grace note, a second voice, a left and a right
+   barline and a <print> satisfies the hypotheses; the importer model computes on it.  Boundary: on a stream the
+   exporter never writes (<chord/> after <backup>) the importer and the spec reader differ *)
+Theorem importer_example :
+  segs_in 8 24 [imp_ex_seg] /\
+  imp (lin_measure [imp_ex_seg] 8 24) (mkM 8 None 8 8) =
+    Some ([POther TAG_LEFT 8; POther 1 8; POther TAG_PRINT 8; PNote 2 8 4; PNote 1 8 4; PNote 3 12 0;
+           PNote 4 12 4; POther TAG_RIGHT 24; PNote 5 10 6], mkM 16 (Some (10, 6)) 24 8) /\
+  imp [ENote 1 4 false false 1; EBackup 2; ENote 2 4 true false 1; ENote 3 2 false false 1] (mkM 0 None 0 0) =
+    Some ([PNote 1 0 4; PNote 2 0 4; PNote 3 4 2], mkM 6 (Some (4, 2)) 6 0).
+Proof. exact (conj imp_ex_hyp (conj (proj2 imp_ex_run) (proj1 imp_differs_from_interp))). Qed.
+Print Assumptions importer_example.
+
+(* O2, parts and part groups.  _parse_partlist (parse_groups: a stack of open groups; a stop without an open group
+   fails) inverts the eager serialisation of ANY part structure ... *)
+Theorem parse_inverts_serialisation : forall f, parse_groups (emit_f f) = Some f.
+Proof. exact parse_emit_lemma. Qed.
+Print Assumptions parse_inverts_serialisation.
+
+(* ... the exporter (export_groups: it walks the flat list of parts, each knowing only its chain of parents; opens a
+   group when its first part arrives, closes groups LAZILY when a part outside them arrives or at the end; membership
+   in group_stack by object identity) writes exactly that serialisation for every structure, nested to any depth,
+   whose groups are distinct objects and each hold at least one part ... *)
+Theorem export_writes_serialisation : forall f, groups_wf f -> export_groups f = emit_f f.
+Proof. exact export_is_emit_lemma. Qed.
+Print Assumptions export_writes_serialisation.
+
+(* ... so the structure of parts and nested groups survives save and load *)
+Theorem groups_roundtrip : forall f, groups_wf f -> parse_groups (export_groups f) = Some f.
+Proof. exact groups_roundtrip_lemma. Qed.
+Print Assumptions groups_roundtrip.
+
+(* non-vacuity (nested two deep, a member after an inner group, sibling groups, a bare part) and the boundary of the
+   hypothesis: a group without parts is not written *)
+Theorem groups_example :
+  groups_wf grp_ex /\
+  export_groups grp_ex =
+    [TStart 1; TStart 2; TPart 1; TPart 2; TStop 2; TPart 3; TStop 1; TStart 3; TStart 4; TPart 4;
+     TStop 4; TStop 3; TPart 5] /\
+  parse_groups (export_groups [NGroup 1 []; NPart 1]) = Some [NPart 1].
+Proof. exact (conj grp_ex_wf (conj grp_ex_export (proj2 grp_empty_group_lost))). Qed.
+Print Assumptions groups_example.
+
+(* O2, slurs and tuplets.  For ANY part -- notes in document order, each with the slurs (tuplets) that stop and
+   start at it, nested or overlapping in any way, a stop written before its start (other voice / staff) included --
+   in which every range is started once and stopped once and does not run backwards in time (ok_notes: stated on
+   the score alone, by a reader keyed by the IDENTITY of the range): numbering the ranges as save_musicxml does
+   (roundtrip: range_number_from_counter = smallest number no open range uses, released by the second call;
+   range_numbers_at_note = not-open ranges first; stops then starts, each sorted by number) and pairing the written
+   elements as load_musicxml does (per note sorted by type then number, start-key / stop-key per number in
+   `ongoing`, stop-before-start, rogue test on the onsets; rogue = true: handle_slurs, false: handle_tuplets)
+   yields exactly the pairs (start note, end note) that pairing by identity yields. *)
+Theorem range_numbers_roundtrip : forall rogue ns,
+  ok_notes rogue ns ost0 ->
+  Permutation (fin (roundtrip rogue ns [] ost0)) (fin (spec_run rogue ns ost0)).
+Proof. exact range_numbers_roundtrip_lemma. Qed.
+Print Assumptions range_numbers_roundtrip.
+
+(* the reason range_numbers_at_note numbers the ranges that are not open BEFORE the open ones release their
+   numbers: all numbers written at one note for one kind differ (from any injective counter) *)
+Theorem numbers_at_distinct : forall rs c,
+  cinj c -> NoDup rs -> NoDup (map fst (fst (numbers_at rs c))).
+Proof. exact numbers_at_distinct_lemma. Qed.
+Print Assumptions numbers_at_distinct.
+
+(* non-vacuity (three slurs over two voices, one stop-before-start, a number re-used) and two boundaries: a slur
+   running backwards in time is outside the hypothesis and IS lost; list-order numbering writes a number twice *)
+Theorem ranges_example :
+  ok_notes true rng_ex ost0 /\
+  export_notes rng_ex [] = [[(1, true)]; [(2, true)]; [(1, false); (3, false)]; [(3, true)]; [(2, false)]] /\
+  fin (roundtrip true rng_ex [] ost0) = [(1, 4); (3, 2); (0, 2)] /\
+  fin (roundtrip true [mkRN (0, 8) [] [10]; mkRN (1, 0) [10] []] [] ost0) = [] /\
+  map fst (fst (toggle_all [10; 12] [(10, 1)])) = [1; 1].
+Proof.
+  exact (conj rng_ex_ok (conj rng_ex_written (conj rng_ex_loaded
+          (conj (proj2 rng_backwards_lost) (proj1 rng_list_order_collides))))).
+Qed.
+Print Assumptions ranges_example.
+
+(* O2, wedges and dashes (the part of the exporter three repaired defects were in).  For ANY sequence of wedge
+   (dashes) starts and stops in document order in which a range is started while it is not open and stopped while it
+   is open -- overlapping without nesting, over barlines, any number open at once: numbering the events as
+   do_directions does (the same counter function, stops before starts at one time) and reading the numbers as
+   _handle_direction does (ongoing[(label, number)]: a start overwrites, a stop ends what it finds, a stop without a
+   start is ignored) yields the (start, end) pairs that pairing by identity yields. *)
+Theorem wedge_numbers_roundtrip : forall evs,
+  ok_wevents evs ost0 ->
+  Permutation (fin (wroundtrip evs [] ost0)) (fin (wspec evs ost0)).
+Proof. exact wedge_numbers_roundtrip_lemma. Qed.
+Print Assumptions wedge_numbers_roundtrip.
+
+(* non-vacuity: two overlapping wedges, the first crossing a barline (the shape of 65e5d66 / a5e2056), a third
+   re-using number 1 *)
+Theorem wedges_example :
+  ok_wevents wedge_ex ost0 /\
+  wexport wedge_ex [] = [(1, true); (2, true); (1, false); (2, false); (1, true); (1, false)] /\
+  fin (wroundtrip wedge_ex [] ost0) = [(30, 40); (18, 30); (0, 20)].
+Proof. exact (conj wedge_ex_ok wedge_ex_run). Qed.
+Print Assumptions wedges_example.
 
 (* The reader in quarters that the whole-part correspondence (b) evaluates (interp_q) is the
    division-axis reader of the theorems above (interp) scaled by the divisions in force: on ANY
